@@ -215,6 +215,7 @@ def mc_run_one(ctx, rep, case, method, use_ivar, fluxkind, stats):
     ctx.validated()
     if v is not None and v.shape == (case['grid']['count'],):
         nzero = int((v != 0).sum())
+        stats['last_zero'] = case['grid']['count'] - nzero
         stats['kept_by_code'] += nzero
         stats['kept_by_model'] += case['kept']
         stats['on_isolated_good_nonzero'] += sum(1 for j in set(case['strict']) - mz if v[j] != 0)
@@ -264,7 +265,10 @@ def run_mc(ctx, rep):
                     mc_run_one(ctx, rep, case, m, True, fluxkind, stats)
         if sampled < 3 and good and case['mz'] and len(case['mz']) < case['grid']['count'] and kind != 'single':
             sampled += 1
-            ctx.sample({'tlc_case': {k: case[k] for k in ('family', 'pat', 'g', 'grid', 'mz')}, 'method': method})
+            ctx.sample({'tlc_case': {'family': case['family'], 'pattern': case['pat'], 'block': len(case['exps'][0]['good']),
+                                     'grid': case['grid'], 'must_be_zero_pixels': len(case['mz'])},
+                        'aesthetics': method or 'default', 'nonzero_ivar_pixels_observed': case['grid']['count'] - stats.get('last_zero', 0)})
+    stats.pop('last_zero', None)
     ctx.cov['replay_stats'] = dict(stats)
     return stats
 
@@ -346,8 +350,11 @@ def item_resample(sub, quick):
     exps = [(tuple(bool(x > 0) for x in ivs[e]), shifts[e]) for e in range(nexp)]
     inll, flux, ivar, newll = concretise(exps, grid, [iv / float(q) for iv in ivs], 'smooth',
                                          period=rng.choice([40.0, 75.0, 130.0]), noise=noise)
+    garbage = use_ivar and rng.random() < 0.15
+    if garbage:        # masked pixels of real data hold arbitrary values
+        flux = np.where(ivar > 0, flux, rng.choice([float('nan'), float('inf'), -1.0e30]))
     f, v, exc = run_call(inll, flux, newll, ivar if use_ivar else None, method)
-    desc = {'kind': 'resample', 'sub': sub, 'n': n, 'nexp': nexp, 'grid': grid, 'gridkind': gkind, 'method': method,
+    desc = {'kind': 'resample', 'sub': sub, 'garbage_under_mask': garbage, 'quick': quick, 'n': n, 'nexp': nexp, 'grid': grid, 'gridkind': gkind, 'method': method,
             'use_ivar': use_ivar, 'shifts': [[s.numerator, s.denominator] for s in shifts]}
     if exc:
         return None, desc, ('raised', exc), None
@@ -379,7 +386,7 @@ def item_law(sub, quick):
         ivs.append(iv / 4.0)
     exps = [(tuple(bool(x > 0) for x in ivs[e]), shifts[e]) for e in range(nexp)]
     plain = [m for m in METHODS if m != 'damp']       # 'damp' tapers the whole spectrum by design
-    desc = {'kind': 'law', 'sub': sub, 'n': n, 'nexp': nexp, 'period': period}
+    desc = {'kind': 'law', 'sub': sub, 'quick': quick, 'n': n, 'nexp': nexp, 'period': period}
     recs, errs = [], []
 
     def call(grid, kind, ivl, method, level=10.0, mult=1.0):
@@ -439,7 +446,15 @@ def item_shift(sub, quick):
     o1 = rng.choice([0, 0, 120, -35])
     x = np.arange(n, dtype='d')
     k0 = [rng.randrange(n // 3, 2 * n // 3) for _ in range(nobj)]
-    m = [rng.randrange(-60, 90) for _ in range(nobj)]
+    mode = ['given', 'given-offset', 'derived'][sub % 3]            # all (mode, loglam shape) combinations every 6 items
+    off = rng.randrange(-40, 40) if mode == 'given-offset' else 0
+    ncount = n + 60 if mode == 'given-offset' else n
+    m = []
+    for k in k0:        # whole-pixel redshifts that keep the feature at least 15 pixels inside the output grid
+        mm = rng.randrange(-60, 90)
+        while not (15 <= k - mm - off <= ncount - 16):
+            mm = rng.randrange(-60, 90)
+        m.append(mm)
     flux = np.vstack([1.0 + 5.0 * np.exp(-0.5 * ((x - k) / 2.0) ** 2) + 0.2 * np.sin(x / 31.0) for k in k0])
     ivar = np.ones(flux.shape)
     for i in range(nobj):
@@ -448,16 +463,14 @@ def item_shift(sub, quick):
         ivar[i] = iv / 4.0
     ll = LL0 + DLL * (x + o1)
     z = np.array([10.0 ** (DLL * mm) - 1.0 for mm in m])
-    mode = rng.choice(['given', 'given-offset', 'derived'])
-    two_d = rng.random() < 0.4
+    two_d = (sub // 3) % 2 == 1
     kw = {}
     if mode == 'given':
         kw['newloglam'] = ll.copy()
     elif mode == 'given-offset':
-        off = rng.randrange(-40, 40)
-        kw['newloglam'] = LL0 + DLL * (np.arange(n + 60, dtype='d') + o1 + off)
+        kw['newloglam'] = LL0 + DLL * (np.arange(ncount, dtype='d') + o1 + off)
     aes = rng.choice(['mean', 'traditional', 'noconst', 'nothing'])
-    desc = {'kind': 'shift', 'sub': sub, 'nobj': nobj, 'n': n, 'k0': k0, 'm': m, 'o1': o1, 'mode': mode, 'aesthetics': aes,
+    desc = {'kind': 'shift', 'sub': sub, 'quick': quick, 'nobj': nobj, 'n': n, 'k0': k0, 'm': m, 'o1': o1, 'mode': mode, 'aesthetics': aes,
             'loglam2d': two_d}
     try:
         with warnings.catch_warnings(), np.errstate(all='ignore'):
@@ -480,7 +493,7 @@ def item_shift(sub, quick):
     return recs, desc, []
 
 
-def judge_records(ctx, records, label, chunk=60):
+def judge_records(ctx, records, label, chunk=150):
     """Trace_Resample over the records; returns {index: why} of the rejected ones."""
     bad = {}
     for base in range(0, len(records), chunk):
@@ -503,7 +516,7 @@ def judge_records(ctx, records, label, chunk=60):
 
 
 def run_trace(ctx, rep):
-    n_res, n_law, n_shift = (36, 10, 8) if ctx.quick else (320, 90, 70)
+    n_res, n_law, n_shift = (36, 10, 8) if ctx.quick else (450, 120, 90)
     records, meta = [], []
     for k in range(n_res):
         sub = ctx.seed * 1000 + k
@@ -548,7 +561,9 @@ def run_trace(ctx, rep):
             d['what'] = 'preprocess_spectra(%d objects x %d pixels, aesthetics=%s, newloglam %s) raised %s' % (
                 desc['nobj'], desc['n'], m, desc['mode'], exc)
             ctx.evaluated(1, 'law-shift')
-            rep.report('law-shift', 'raised', d, classify('raised', exc, m, True, False))
+            known = ('D-C11-5' if desc['mode'] == 'derived' and desc['loglam2d'] and exc.startswith(('TypeError: only 0-dimensional', 'IndexError: index 1 is out of bounds'))
+                     else classify('raised', exc, m, True, False))
+            rep.report('law-shift', 'raised', d, known)
     if not records:
         return
     bad = judge_records(ctx, records, 'Trace_Resample')
@@ -625,7 +640,7 @@ def replay(ctx, case):
         return
     sub, kind = case['sub'], case['kind']
     if kind == 'resample':
-        rec, desc, err, v = item_resample(sub, ctx.tier == 'quick')
+        rec, desc, err, v = item_resample(sub, case.get('quick', True))
         ctx.evaluated(1)
         if err:
             desc['what'] = 'replayed recorded call %s: %s' % err
@@ -633,12 +648,12 @@ def replay(ctx, case):
             return
         recs, metas = [rec], [desc]
     elif kind == 'law':
-        recs, desc, errs = item_law(sub, ctx.tier == 'quick')
+        recs, desc, errs = item_law(sub, case.get('quick', True))
         metas = [dict(desc, law=r['law']) for r in recs]
         for law, m, exc in errs:
             rep.report('law-' + law, 'raised', dict(desc, law=law, what='replayed law %s raised %s' % (law, exc)))
     else:
-        recs, desc, errs = item_shift(sub, ctx.tier == 'quick')
+        recs, desc, errs = item_shift(sub, case.get('quick', True))
         metas = [dict(desc, law='shift') for r in recs]
         for law, m, exc in errs:
             rep.report('law-shift', 'raised', dict(desc, law=law, what='replayed preprocess_spectra raised %s' % exc))
